@@ -101,6 +101,15 @@ def logical_input(rng):
         c = dict(kind='multilevel', base_string=m['multi_string'][:cut + 1], frag_string=m['multi_string'][cut + 2:], features=m['features'])
     else:
         a = ambig.random_case(rng, coarse=False, prefer=('WT', 'WH', 'WG', 'HT', 'NA', 'HB', 'HB2', 'LAB', 'EN2', 'LAB', 'SUR', 'MIX', 'SUR') if rng.random() < 0.5 else ())
+        if rng.random() < 0.12:
+            # two differently named end groups written with the bare-hydrogen shorthand in ONE block, around a short chain:
+            # whichever of them is read first, both are hydrogens
+            mid = rng.choice([('PE', '[$]CC[$]'), ('PEO', '[$]COC[$]'), ('NH', '[$]N[$]')])
+            defs = [('HB', '[$]H'), mid, ('HE', '[$]H')]
+            rng.shuffle(defs)
+            k = rng.randint(1, 4)
+            a = dict(string='{[#HB]' + ('[#%s]' % mid[0]) * k + '[#HE]}.{' + ','.join('#%s=%s' % d for d in defs) + '}', legacy=True,
+                     features=['ambig_atomistic', 'two_bare_hydrogen_units_in_one_block', 'unit_HB'])
         if a is None:
             return None
         cut = a['string'].index('}.{')
